@@ -31,6 +31,7 @@ import (
 	"github.com/consensys/gnark/std/gkr"
 	"github.com/consensys/gnark/std/lookup/logderivlookup"
 	"github.com/consensys/gnark/std/math/emulated"
+	"github.com/consensys/gnark/std/math/emulated/emparams"
 	"github.com/consensys/gnark/std/multicommit"
 	"github.com/consensys/gnark/std/rangecheck"
 )
@@ -194,6 +195,22 @@ func families() []family {
 	return f
 }
 
+// varModCircuit uses the variable-modulus emulated API with the modulus held in a circuit field.
+type varModCircuit struct {
+	A, B, M, R emulated.Element[emparams.Mod1e256]
+}
+
+func (c *varModCircuit) Define(api frontend.API) error {
+	f, err := emulated.NewField[emparams.Mod1e256](api)
+	if err != nil {
+		return err
+	}
+	p := f.ModMul(&c.A, &c.B, &c.M)
+	q := f.ModAdd(p, &c.A, &c.M)
+	f.ModAssertIsEqual(q, &c.R, &c.M)
+	return nil
+}
+
 type target struct {
 	name    string
 	builder string
@@ -220,6 +237,9 @@ func targets(quick bool) []target {
 				t = append(t, target{name: f.name + "/" + b + "/" + os.n, builder: b, mk: func() frontend.Circuit { return circ.New(f.nP, f.nS, f.def) }, opts: append(append([]frontend.CompileOption(nil), f.opts...), os.o...)})
 			}
 		}
+	}
+	for _, b := range []string{circ.R1CS, circ.SCS} {
+		t = append(t, target{name: "emulated-varmod/" + b + "/default", builder: b, mk: func() frontend.Circuit { return &varModCircuit{} }})
 	}
 	// API programs of the C04 generator
 	all := ops.All(field.BitLen())
@@ -405,6 +425,19 @@ func histories(c *vh.Check, ts []target, ref map[string]string) {
 	maxLen := 2
 	if c.Tier == "thorough" {
 		maxLen = 3
+	}
+	// every family: the SAME circuit object compiled three times (gadgets cache state in circuit fields)
+	for _, i := range pick {
+		obj := ts[i].mk()
+		for k := 1; k <= 3; k++ {
+			h := compileHash(ts[i], obj)
+			c.Evals.Add(1)
+			c.Traces.Add(1)
+			c.Outcome(fmt.Sprintf("H:recompile-same-object:%v", h == ref[ts[i].name]))
+			if h != ref[ts[i].name] {
+				c.Violation(fmt.Sprintf("c11:H:recompile-same-object:%s:compilation#%d", ts[i].name, k), map[string]any{"target": ts[i].name, "compilation": k, "hash": h, "fresh_process_hash": ref[ts[i].name]})
+			}
+		}
 	}
 	// alphabets of 3 targets sliding over the families
 	for a := 0; a+2 < len(pick); a += 2 {
